@@ -84,6 +84,7 @@ struct Gram {
   std::string text;                    // what is handed to the library
   fsa::Fsa own;                        // the harness' own acceptor of the grammar
   std::vector<std::string> alignWords; // ALIGN only (base forms)
+  bool confluence = false;             // two rhyming words from different states into one state
   bool namesVariant = false;           // some word is written as a numbered pronunciation variant, e.g. the(2)
   std::string desc;
 };
@@ -151,7 +152,27 @@ inline Gram genGrammar(Choices &c, int wJsgf = 4, int wFsg = 4, int wAlign = 2, 
     g.own.nstate = ns;
     g.own.start = start;
     g.own.fin = fin;
-    int narcs = (int)c.range(1, 14);
+    // one choice: the remainder is the arc count as before; the quotient may add a "confluence": two arcs with
+    // different words that end in the same phones, from different states into one state (word exits of both then
+    // meet in the same history cell)
+    uint32_t nr = c.raw();
+    int narcs = 1 + (int)(nr % 14);
+    if (!extra && ns >= 3 && (nr / 14) % 4 == 3) {
+      static const char *RHYME[][2] = {{"two", "too"}, {"eight", "ate"}, {"see", "sea"}, {"one", "won"}, {"four", "for"}, {"so", "show"}, {"me", "he"}, {"may", "day"}};
+      uint32_t q = nr / 56;
+      const char **pair = RHYME[q % 8];
+      q /= 8;
+      int to = (int)(q % (uint32_t)ns);
+      q /= (uint32_t)ns;
+      int s1 = (int)(q % (uint32_t)ns);
+      q /= (uint32_t)ns;
+      int s2 = (s1 + 1 + (int)(q % (uint32_t)(ns - 1))) % ns;
+      for (int k2 = 0; k2 < 2; ++k2) {
+        t << "TRANSITION " << (k2 ? s2 : s1) << " " << to << " 1 " << pair[k2] << "\n";
+        g.own.arcs.push_back({k2 ? s2 : s1, to, pair[k2], 0});
+      }
+      g.confluence = true;
+    }
     // a backbone from start towards final so that most grammars are non-empty
     bool backbone = c.coin(75);
     for (int i = 0; i < narcs; ++i) {
